@@ -491,7 +491,7 @@ class WriteScanner:
             among = what if isinstance(what, list) else None
             g = isinst.get((root, line))
             if g:
-                among = [c for c in (among or ELEMENT_CLASSES) if c in g]
+                among = [c for c in (among or (ELEMENT_CLASSES + CONTROL_CLASSES)) if c in g]
             self._generic(ch[1], among, w, text, rest=ch[2:])
 
     def _wn_field(self, names, w):
@@ -548,6 +548,16 @@ def _isinstance_guards(fn):
     for n in ast.walk(fn):
         if isinstance(n, ast.If):
             t = n.test
+            # `if X.epanet_control_type == _ControlType.rule:` -- only objects of class Rule carry that type (Control.__init__
+            # always assigns presolve / postsolve / pre_and_postsolve; checked at run time by the write trace)
+            if (isinstance(t, ast.Compare) and len(t.ops) == 1 and isinstance(t.ops[0], (ast.Eq, ast.Is))
+                    and isinstance(t.left, ast.Attribute) and t.left.attr in ("epanet_control_type", "_control_type")
+                    and isinstance(t.left.value, ast.Name) and isinstance(t.comparators[0], ast.Attribute)
+                    and t.comparators[0].attr == "rule"):
+                for s_ in n.body:
+                    for m in ast.walk(s_):
+                        if hasattr(m, "lineno"):
+                            out[(t.left.value.id, m.lineno)] = {"Rule"}
             if (isinstance(t, ast.Call) and isinstance(t.func, ast.Name) and t.func.id == "isinstance" and len(t.args) == 2
                     and isinstance(t.args[0], ast.Name)):
                 cl = classes_of(t.args[1])
@@ -1045,6 +1055,1154 @@ def missing(w, a):
     return [x for x in w if x not in a]
 
 
+# =================================================================================================== generator (specs are JSON-able)
+
+import gen_networks as G  # noqa: E402  (harness/ is on sys.path)
+
+
+def gen_controls(rng, net, p_speed=0.12):
+    """controls / rules as plain dictionaries, built relative to a gen_networks spec"""
+    o = net["options"]
+    hyd, dur = o["hydraulic_timestep"], o["duration"]
+    links = net["links"]
+    pipes = [l for l in links if l["type"] == "pipe"]
+    pumps = [l for l in links if l["type"] == "pump"]
+    valves = [l for l in links if l["type"] == "valve"]
+    tanks = [n for n in net["nodes"] if n["type"] == "tank"]
+    juncs = [n for n in net["nodes"] if n["type"] == "junction"]
+    nsteps = max(1, dur // hyd)
+
+    def a_time():
+        k = rng.randint(0, nsteps)
+        t = k * hyd
+        if rng.random() < 0.25:
+            t += rng.choice([hyd // 2, hyd // 3, 60])  # off the grid: the simulator backtracks
+        return int(min(t, dur))
+
+    def action(prefer=None):
+        pool = []
+        if pipes:
+            pool += ["pipe"] * 3
+        if pumps:
+            pool += ["pump"] * 3
+        if valves:
+            pool += ["valve"] * 4
+        kind = prefer if prefer in pool else rng.choice(pool)
+        if kind == "pipe":
+            l = rng.choice(pipes)
+            return {"link": l["name"], "attr": "status", "value": rng.choice([0, 0, 1])}
+        if kind == "pump":
+            l = rng.choice(pumps)
+            if rng.random() < p_speed:
+                return {"link": l["name"], "attr": "base_speed", "value": rng.choice([1.0, 0.7, 0.5, 1.2])}
+            return {"link": l["name"], "attr": "status", "value": rng.choice([0, 1])}
+        l = rng.choice(valves)
+        if rng.random() < 0.5:
+            return {"link": l["name"], "attr": "status", "value": rng.choice([0, 0, 1, 2])}
+        vt = l["valve_type"]
+        if vt in ("PRV", "PSV"):
+            v = round(max(2.0, l["setting"] * rng.uniform(0.5, 1.3)), 2)
+        elif vt == "FCV":
+            v = round(l["setting"] * rng.uniform(0.4, 1.5), 5)
+        else:
+            v = round(rng.uniform(0.5, 60.0), 2)
+        return {"link": l["name"], "attr": "setting", "value": v}
+
+    def leaf():
+        r = rng.random()
+        if tanks and r < 0.4:
+            t = rng.choice(tanks)
+            lo, hi = t["min_level"], t["max_level"]
+            thr = round(t["init_level"] + rng.uniform(-1.0, 1.0), 2)
+            thr = min(max(thr, lo + 0.1), hi - 0.1)
+            return {"t": "value", "node": t["name"], "attr": rng.choice(["level", "level", "head"]) , "op": rng.choice([">", "<", ">=", "<="]),
+                    "thr": thr if True else None, "elev": t["elevation"]}
+        if juncs and r < 0.65:
+            j = rng.choice(juncs)
+            return {"t": "value", "node": j["name"], "attr": "pressure", "op": rng.choice([">", "<"]), "thr": round(rng.uniform(5, 70), 1)}
+        if r < 0.75 and links:
+            l = rng.choice(links)
+            return {"t": "value", "link": l["name"], "attr": "flow", "op": rng.choice([">", "<"]), "thr": round(rng.uniform(-0.002, 0.01), 4)}
+        return {"t": "simtime", "op": rng.choice([">=", ">=", ">", "<", "="]), "thr": a_time()}
+
+    out = []
+    if not (pipes or pumps or valves):
+        return out
+    n = rng.choice([0, 1, 1, 2, 2, 3, 4])
+    for i in range(n):
+        r = rng.random()
+        if r < 0.4:
+            out.append({"kind": "time", "time": a_time(), "action": action()})
+        elif r < 0.65 and (tanks or juncs):
+            c = leaf()
+            while c["t"] != "value" or "node" not in c:
+                c = leaf()
+            c["op"] = c["op"][0]  # simple controls know ABOVE / BELOW only
+            out.append({"kind": "cond", "cond": c, "action": action()})
+        else:
+            c = leaf()
+            if rng.random() < 0.35:
+                c = {"t": rng.choice(["and", "or"]), "a": c, "b": leaf()}
+            out.append({"kind": "rule", "cond": c, "then": [action() for _ in range(rng.choice([1, 1, 2]))],
+                        "else": ([action()] if rng.random() < 0.4 else []), "priority": rng.choice([1, 2, 3, 3, 4, 5]),
+                        "name": ("" if rng.random() < 0.3 else "rule%d" % i)})
+    for c in out:
+        if c["kind"] == "cond" and c["cond"].get("attr") == "head":
+            c["cond"]["thr"] = round(c["cond"]["thr"] + c["cond"]["elev"], 2)
+        if c["kind"] == "rule":
+            for leafc in _leaves(c["cond"]):
+                if leafc.get("attr") == "head":
+                    leafc["thr"] = round(leafc["thr"] + leafc["elev"], 2)
+    return out
+
+
+def _leaves(c):
+    if c["t"] in ("and", "or"):
+        return _leaves(c["a"]) + _leaves(c["b"])
+    return [c]
+
+
+def gen_spec(rng, quick=True, wide=False, p_speed=0.12):
+    n = rng.randint(4, 10) if not wide else rng.randint(3, 16)
+    net = G.random_network(rng, quick=True, force={"n_nodes": n})
+    net["options"]["trials"] = 40
+    return {"net": net, "controls": gen_controls(rng, net, p_speed=p_speed)}
+
+
+def _small_net(hyd=3600, steps=4, valve=None, valve_status="ACTIVE", pump="POWER", pdd=False, tank=True):
+    """a fixed, well-conditioned little network for the directed scenarios"""
+    nodes = [{"name": "R0", "type": "reservoir", "head": 60.0, "head_pattern": None}]
+    if tank:
+        nodes.append({"name": "T1", "type": "tank", "elevation": 50.0, "init_level": 4.0, "min_level": 0.5, "max_level": 9.0, "diameter": 9.0})
+    for i, (e, b) in enumerate([(5.0, 0.004), (8.0, 0.003), (3.0, 0.005), (6.0, 0.002)]):
+        nodes.append({"name": "J%d" % i, "type": "junction", "elevation": e,
+                      "demands": [{"base": b, "pattern": "pat0", "category": None}]})
+
+    def pipe(nm, a, b, d=0.3, L=200.0, st="OPEN"):
+        return {"name": nm, "type": "pipe", "start": a, "end": b, "length": L, "diameter": d, "roughness": 100.0, "minor_loss": 0.0,
+                "check_valve": False, "initial_status": st}
+
+    links = [pipe("P1", "R0", "J0"), pipe("P2", "J0", "J1"), pipe("P3", "J1", "J2", d=0.2), pipe("P4", "J2", "J3", d=0.2), pipe("P5", "J0", "J3", d=0.15)]
+    curves = {}
+    if tank:
+        links.append(pipe("P6", "J1", "T1", d=0.25, L=100.0))
+    if pump == "POWER":
+        links.append({"name": "PW1", "type": "pump", "start": "R0", "end": "J0", "pump_type": "POWER", "power": 3000.0, "initial_status": "OPEN"})
+    elif pump == "HEAD":
+        curves["curve1"] = [(0.0, 30.0), (0.02, 24.0), (0.05, 8.0)]
+        links.append({"name": "PU1", "type": "pump", "start": "R0", "end": "J0", "pump_type": "HEAD", "curve": "curve1", "initial_status": "OPEN"})
+    if valve:
+        setting = {"PRV": 30.0, "PSV": 40.0, "FCV": 0.002, "TCV": 20.0}[valve]
+        links.append({"name": "V1", "type": "valve", "start": "J1", "end": "J3", "valve_type": valve, "diameter": 0.2, "minor_loss": 0.0,
+                      "setting": setting, "initial_status": valve_status})
+    opts = {"demand_model": "PDD" if pdd else "DD", "hydraulic_timestep": hyd, "pattern_timestep": 3600, "report_timestep": hyd,
+            "pattern_start": 0, "pattern_interpolation": False, "demand_multiplier": 1.0, "duration": hyd * steps,
+            "required_pressure": 20.0, "minimum_pressure": 0.0, "pressure_exponent": 0.5, "trials": 40}
+    return {"nodes": nodes, "links": links, "patterns": {"pat0": [1.0, 1.3, 0.7, 1.1]}, "curves": curves, "options": opts,
+            "hw_approx": "default", "features": {}}
+
+
+def scenario_specs(rng):
+    """directed histories (parameters still drawn from the rng): every feature class of the statement at least once per run"""
+    out = []
+    hyd = 3600
+    # a speed control on a power pump (definition-level attribute reachable through ControlAction)
+    net = _small_net(pump="POWER")
+    out.append(("speed-power", {"net": net, "controls": [{"kind": "time", "time": hyd * rng.choice([1, 2]),
+                                                         "action": {"link": "PW1", "attr": "base_speed", "value": rng.choice([0.7, 0.5])}}]}))
+    # a valve closed / re-opened by controls, the last change in the final step (state left behind for the next run)
+    vt = rng.choice(["PRV", "TCV", "FCV", "PSV"])
+    net = _small_net(valve=vt, pump=rng.choice(["POWER", "HEAD"]), steps=3)
+    ctr = [{"kind": "time", "time": hyd * 3, "action": {"link": "V1", "attr": "status", "value": 0}},
+           {"kind": "time", "time": hyd * 1, "action": {"link": "V1", "attr": "setting", "value": {"PRV": 22.0, "PSV": 35.0, "FCV": 0.001, "TCV": 45.0}[vt]}},
+           {"kind": "time", "time": hyd * 2, "action": {"link": "P5", "attr": "status", "value": 0}}]
+    out.append(("valve-closed-at-end", {"net": net, "controls": ctr}))
+    # leaks on a junction and the tank with start / end times, PDD, a tank-level control and a rule with ELSE
+    net = _small_net(pdd=True, valve=None, pump="HEAD", steps=4)
+    net["nodes"][1]["leak"] = {"area": 2e-4, "cd": 0.75, "start": hyd, "end": 3 * hyd}
+    net["nodes"][3]["leak"] = {"area": 1e-4, "cd": 0.75, "start": 0, "end": None}
+    ctr = [{"kind": "cond", "cond": {"t": "value", "node": "T1", "attr": "level", "op": ">", "thr": round(rng.uniform(4.02, 4.3), 2)},
+            "action": {"link": "P6", "attr": "status", "value": 0}},
+           {"kind": "rule", "cond": {"t": "and", "a": {"t": "simtime", "op": ">=", "thr": 2 * hyd},
+                                     "b": {"t": "value", "node": "J2", "attr": "pressure", "op": ">", "thr": 5.0}},
+            "then": [{"link": "P5", "attr": "status", "value": 0}], "else": [{"link": "P5", "attr": "status", "value": 1}],
+            "priority": 3, "name": ""}]
+    out.append(("leaks-pdd-rule", {"net": net, "controls": ctr}))
+    # a valve whose initial status is not ACTIVE (the API-built model is run without a reset first)
+    net = _small_net(valve=rng.choice(["TCV", "PRV"]), valve_status=rng.choice(["CLOSED", "OPEN"]), pump="POWER", steps=2)
+    out.append(("valve-initial-status", {"net": net, "controls": []}))
+    # pump switched by tank level, pipe closed from the start, rule on the pump
+    net = _small_net(pump="HEAD", valve="TCV", steps=4)
+    net["links"][4]["initial_status"] = "CLOSED"
+    ctr = [{"kind": "cond", "cond": {"t": "value", "node": "T1", "attr": "level", "op": ">", "thr": round(rng.uniform(4.05, 4.5), 2)},
+            "action": {"link": "PU1", "attr": "status", "value": 0}},
+           {"kind": "cond", "cond": {"t": "value", "node": "T1", "attr": "level", "op": "<", "thr": 3.9},
+            "action": {"link": "PU1", "attr": "status", "value": 1}},
+           {"kind": "rule", "cond": {"t": "simtime", "op": ">=", "thr": 3 * hyd}, "then": [{"link": "V1", "attr": "setting", "value": 60.0}],
+            "else": [], "priority": 2, "name": "late"}]
+    out.append(("pump-tank-level", {"net": net, "controls": ctr}))
+    return out
+
+
+# =================================================================================================== building / running
+
+
+def build_model(wntr, spec, fresh=True):
+    """the model exactly as the API builds it (gen_networks.build_wn ends with reset_initial_values(); that call is
+    neutralised here so that `fresh` really is what a user gets from add_* calls), then the controls"""
+    WN = wntr.network.WaterNetworkModel
+    orig = WN.reset_initial_values
+    WN.reset_initial_values = lambda self: None
+    try:
+        wn = G.build_wn(wntr, spec["net"])
+    finally:
+        WN.reset_initial_values = orig
+    ctl = wntr.network.controls
+    LS = wntr.network.LinkStatus
+
+    def mk_action(a):
+        obj = wn.get_link(a["link"])
+        v = a["value"]
+        if a["attr"] == "status":
+            v = LS(int(v))
+        return ctl.ControlAction(obj, a["attr"], v)
+
+    def mk_cond(c):
+        t = c["t"]
+        if t == "simtime":
+            return ctl.SimTimeCondition(wn, c["op"], c["thr"])
+        if t == "value":
+            obj = wn.get_node(c["node"]) if "node" in c else wn.get_link(c["link"])
+            return ctl.ValueCondition(obj, c["attr"], c["op"], c["thr"])
+        if t == "and":
+            return ctl.AndCondition(mk_cond(c["a"]), mk_cond(c["b"]))
+        if t == "or":
+            return ctl.OrCondition(mk_cond(c["a"]), mk_cond(c["b"]))
+        raise ValueError(t)
+
+    for i, c in enumerate(spec.get("controls", [])):
+        if c["kind"] == "time":
+            ctrl = ctl.Control._time_control(wn, c["time"], "SIM_TIME", False, mk_action(c["action"]))
+        elif c["kind"] == "cond":
+            ctrl = ctl.Control(mk_cond(c["cond"]), mk_action(c["action"]))
+        else:
+            ctrl = ctl.Rule(mk_cond(c["cond"]), [mk_action(a) for a in c["then"]], [mk_action(a) for a in c["else"]],
+                            priority=c["priority"], name=(c["name"] or None))
+        wn.add_control("ctl%d" % i, ctrl)
+    if not fresh:
+        wn.reset_initial_values()
+    return wn
+
+
+def spec_features(spec):
+    f = set()
+    net = spec["net"]
+    f.add(net["options"]["demand_model"])
+    for l in net["links"]:
+        f.add(l["type"] + (":" + (l.get("pump_type") or l.get("valve_type") or "") if l["type"] != "pipe" else ""))
+        if l["type"] == "valve" and l.get("initial_status", "ACTIVE") != "ACTIVE":
+            f.add("valve-initial-" + l["initial_status"].lower())
+        if l.get("check_valve"):
+            f.add("cv")
+    for n in net["nodes"]:
+        if n.get("leak"):
+            f.add("leak:" + n["type"])
+        if n["type"] == "tank":
+            f.add("tank")
+    for c in spec.get("controls", []):
+        f.add("ctl:" + c["kind"])
+        acts = [c["action"]] if "action" in c else c["then"] + c["else"]
+        for a in acts:
+            f.add("act:" + a["attr"])
+        if c["kind"] == "rule":
+            if c["else"]:
+                f.add("rule:else")
+            if c["cond"]["t"] in ("and", "or"):
+                f.add("rule:" + c["cond"]["t"])
+            if not c["name"]:
+                f.add("rule:unnamed")
+    return sorted(f)
+
+
+def norm(v):
+    """JSON-like normal form with NaN-safe, type-stable comparison (numpy scalars/arrays -> python, tuples -> lists, enums -> str)"""
+    import enum
+    import numpy as np
+
+    if isinstance(v, dict):
+        return {str(k): norm(x) for k, x in v.items()}
+    if isinstance(v, (list, tuple)):
+        return [norm(x) for x in v]
+    if isinstance(v, np.ndarray):
+        return [norm(x) for x in v.tolist()]
+    if isinstance(v, (np.floating, float)):
+        f = float(v)
+        return "NaN" if f != f else f
+    if isinstance(v, (np.bool_, bool)):
+        return bool(v)
+    if isinstance(v, (np.integer, int)) and not isinstance(v, enum.Enum):
+        return int(v)
+    if isinstance(v, enum.Enum):
+        return "%s.%s" % (type(v).__name__, v.name)
+    if v is None or isinstance(v, str):
+        return v
+    if hasattr(v, "to_dict") and not isinstance(v, type):
+        try:
+            return {"<%s>" % type(v).__name__: norm(v.to_dict())}
+        except Exception:
+            pass
+    return "<%s>" % type(v).__name__
+
+
+def dict_diff(a, b, path=""):
+    """first differences between two normalised structures: list of (path, old, new)"""
+    out = []
+    if type(a) != type(b):
+        return [(path, a, b)]
+    if isinstance(a, dict):
+        for k in sorted(set(a) | set(b)):
+            if k not in a or k not in b:
+                out.append((path + "/" + k, a.get(k, "<absent>"), b.get(k, "<absent>")))
+            else:
+                out += dict_diff(a[k], b[k], path + "/" + k)
+    elif isinstance(a, list):
+        if len(a) != len(b):
+            out.append((path + "#len", len(a), len(b)))
+        else:
+            for i, (x, y) in enumerate(zip(a, b)):
+                out += dict_diff(x, y, "%s[%d]" % (path, i))
+    elif a != b:
+        out.append((path, a, b))
+    return out
+
+
+def to_dict_norm(wn):
+    return norm(copy.deepcopy(wn.to_dict()))
+
+
+def _elem_class(e):
+    if "node_type" in e:
+        return e["node_type"]
+    if e.get("link_type") == "Pump":
+        return "HeadPump" if e.get("pump_type") == "HEAD" else "PowerPump"
+    if e.get("link_type") == "Valve":
+        return {"PRV": "PRValve", "PSV": "PSValve", "PBV": "PBValve", "FCV": "FCValve", "TCV": "TCValve", "GPV": "GPValve"}.get(e.get("valve_type"), "Valve")
+    return e.get("link_type", "?")
+
+
+def classify_dict_diff(d0, path):
+    """(class, key) of a difference path like /links[3]/base_speed"""
+    import re
+
+    m = re.match(r"^/(nodes|links|curves|patterns|sources|controls)\[(\d+)\]/?([^/\[#]*)", path)
+    if m:
+        sec, i, key = m.group(1), int(m.group(2)), m.group(3)
+        e = d0[sec][i] if i < len(d0[sec]) else {}
+        if sec in ("nodes", "links"):
+            return _elem_class(e), key
+        if sec == "controls":
+            return ("Rule" if e.get("type") == "rule" else "Control"), key
+        return sec[:-1].capitalize(), key
+    m = re.match(r"^/options/([^/]+)/?([^/\[#]*)", path)
+    if m:
+        return "Options", m.group(1) + ("." + m.group(2) if m.group(2) else "")
+    return "WaterNetworkModel", path.strip("/").split("/")[0].split("[")[0].split("#")[0]
+
+
+TABLES = (("node", "head"), ("node", "pressure"), ("node", "demand"), ("node", "leak_demand"),
+          ("link", "flowrate"), ("link", "velocity"), ("link", "status"), ("link", "setting"))
+
+
+class quiet_fds:
+    """SuperLU prints `dgstrf info N` from C on singular trial matrices: keep the check's stdout clean"""
+
+    def __enter__(self):
+        sys.stdout.flush()
+        sys.stderr.flush()
+        self.null = os.open(os.devnull, os.O_WRONLY)
+        self.saved = (os.dup(1), os.dup(2))
+        os.dup2(self.null, 1)
+        os.dup2(self.null, 2)
+
+    def __exit__(self, *a):
+        os.dup2(self.saved[0], 1)
+        os.dup2(self.saved[1], 2)
+        for fd in self.saved + (self.null,):
+            os.close(fd)
+        return False
+
+
+def run_wntr(wntr, wn, hw="default"):
+    """outcome of one WNTRSimulator run: ('ok', tables) | ('raised', type, message)"""
+    import warnings
+    import numpy as np
+
+    with warnings.catch_warnings(), quiet_fds():
+        warnings.simplefilter("ignore")
+        try:
+            sim = wntr.sim.WNTRSimulator(wn)
+            res = sim.run_sim(HW_approx=hw)
+        except Exception as e:  # the statement covers failing runs too: the outcome must repeat
+            return ("raised", type(e).__name__, str(e)[:160])
+    tabs = {}
+    for grp, nm in TABLES:
+        df = getattr(res, grp)[nm]
+        tabs[grp + "." + nm] = (list(df.index), list(df.columns), np.array(df.values, dtype=float))
+    return ("ok", tabs, str(res.error_code))
+
+
+def run_epanet(wntr, wn, prefix):
+    import warnings
+    import numpy as np
+
+    with warnings.catch_warnings(), quiet_fds():
+        warnings.simplefilter("ignore")
+        try:
+            res = wntr.sim.EpanetSimulator(wn).run_sim(file_prefix=prefix)
+        except Exception as e:
+            return ("raised", type(e).__name__, str(e)[:160])
+    tabs = {}
+    for grp, d in (("node", res.node), ("link", res.link)):
+        for nm, df in d.items():
+            try:
+                tabs[grp + "." + nm] = (list(df.index), list(df.columns), np.array(df.values, dtype=float))
+            except Exception:
+                pass
+    return ("ok", tabs, str(getattr(res, "error_code", None)))
+
+
+RTOL = 1e-9  # see the module docstring: the evaluator orders unknowns by heap address, so reruns agree to ~1e-13, not bit for bit
+
+
+def cmp_outcomes(a, b, rtol=RTOL):
+    """None when equal, else a short description of the first difference (table, column, time, values).
+    Continuous tables: |x - y| <= rtol * max(|x|, |y|) + rtol * max(1e-3, max|table|); status tables and the time index: exact."""
+    import numpy as np
+
+    if a[0] != b[0]:
+        return "outcome %s vs %s (%s | %s)" % (a[0], b[0], a[1:] if a[0] == "raised" else "", b[1:] if b[0] == "raised" else "")
+    if a[0] == "raised":
+        return None if a[1:] == b[1:] else "raised %s vs %s" % (a[1:], b[1:])
+    if a[2] != b[2]:
+        return "error_code %s vs %s" % (a[2], b[2])
+    for k in a[1]:
+        if k not in b[1]:
+            return "table %s missing" % k
+        ia, ca, va = a[1][k]
+        ib, cb, vb = b[1][k]
+        if ia != ib:
+            return "table %s: time index %s vs %s" % (k, ia[:8], ib[:8])
+        if ca != cb:
+            return "table %s: columns differ" % k
+        if va.shape != vb.shape:
+            return "table %s: shape %s vs %s" % (k, va.shape, vb.shape)
+        both_nan = np.isnan(va) & np.isnan(vb)
+        if rtol == 0.0 or k.endswith(".status"):
+            eq = (va == vb) | both_nan
+        else:
+            fin = np.where(np.isfinite(va), np.abs(va), 0.0)
+            scale = max(1e-3, float(fin.max()) if fin.size else 0.0)
+            with np.errstate(invalid="ignore"):
+                eq = (np.abs(va - vb) <= rtol * np.maximum(np.abs(va), np.abs(vb)) + rtol * scale) | both_nan | (va == vb)
+        if not eq.all():
+            i, j = np.argwhere(~eq)[0]
+            return "table %s[t=%s, %s]: %r vs %r" % (k, ia[i], ca[j], float(va[i, j]), float(vb[i, j]))
+    return None
+
+
+def max_rel_diff(a, b):
+    import numpy as np
+
+    m = 0.0
+    if a[0] != "ok" or b[0] != "ok":
+        return m
+    for k in a[1]:
+        if k in b[1] and a[1][k][2].shape == b[1][k][2].shape:
+            va, vb = a[1][k][2], b[1][k][2]
+            with np.errstate(invalid="ignore", divide="ignore"):
+                d = np.abs(va - vb) / np.maximum(1e-300, np.maximum(np.abs(va), np.abs(vb)))
+            d = np.where(np.isfinite(d), d, 0.0)
+            if d.size:
+                m = max(m, float(d.max()))
+    return m
+
+
+# =================================================================================================== write trace (tie d)
+
+
+class WriteTrace:
+    """records every attribute assignment on objects OWNED by the model while active (recording `__setattr__` wrappers on
+    the concrete classes of those objects; removed on exit)"""
+
+    def __init__(self, wntr, wn):
+        el = wntr.network.elements
+        self.owned = {}
+        self.observed = {}
+        self._patched = []
+        TS, DM = el.TimeSeries, el.Demands
+        R = Resolver({})
+        self.ts_rev = {}
+        for pn in dir(TS):
+            if isinstance(getattr(TS, pn, None), property) and getattr(TS, pn).fset is not None:
+                for f in R.setter_storage(TS, pn):
+                    self.ts_rev[f] = pn
+
+        def own(o, cls, prefix):
+            self.owned[id(o)] = (cls, prefix, o)
+
+        def nested(o, cls):
+            for f, v in list(vars(o).items()):
+                if isinstance(v, TS):
+                    own(v, cls, f + ".")
+                elif isinstance(v, DM):
+                    own(v, cls, f + ".")
+                    for ts in v._list:
+                        own(ts, cls, f + ".")
+
+        for name, o in list(wn.nodes()) + list(wn.links()):
+            own(o, type(o).__name__, "")
+            nested(o, type(o).__name__)
+        own(wn, "WaterNetworkModel", "")
+        own(wn._options, "Options", "")
+        for f, v in vars(wn._options).items():
+            if hasattr(v, "__dict__") and type(v).__module__.endswith("options"):
+                own(v, "Options", f.lstrip("_") + ".")
+        for name, c in wn.controls():
+            cn = type(c).__name__
+            own(c, cn, "")
+
+            def walk(cond):
+                if cond is None:
+                    return
+                own(cond, cn, "_condition.")
+                for k in ("_condition_1", "_condition_2"):
+                    if hasattr(cond, k):
+                        walk(getattr(cond, k))
+
+            walk(getattr(c, "_condition", None))
+            for a in getattr(c, "_then_actions", []) or []:
+                own(a, cn, "_then_actions.")
+            for a in getattr(c, "_else_actions", []) or []:
+                own(a, cn, "_else_actions.")
+        for name, p in wn.patterns():
+            own(p, "Pattern", "")
+        for name, c in wn.curves():
+            own(c, "Curve", "")
+        for name, s in wn.sources():
+            own(s, "Source", "")
+            nested(s, "Source")
+
+    def __enter__(self):
+        classes = []
+        for (cls, prefix, o) in self.owned.values():
+            if type(o) not in classes:
+                classes.append(type(o))
+        owned, observed, ts_rev = self.owned, self.observed, self.ts_rev
+        for K in classes:
+            had = "__setattr__" in K.__dict__
+            orig = K.__setattr__
+            prev = K.__dict__.get("__setattr__")
+
+            def make(orig, K):
+                def rec(self, name, value):
+                    ent = owned.get(id(self))
+                    if ent is not None and ent[2] is self:
+                        cls, prefix, _ = ent
+                        if not isinstance(getattr(type(self), name, None), property):
+                            field = prefix + (ts_rev.get(name, name) if prefix and type(self).__name__ == "TimeSeries" else name)
+                            key = (cls, field)
+                            if key not in observed:
+                                fr = sys._getframe(1)
+                                chain = []
+                                while fr is not None and len(chain) < 4:
+                                    chain.append("%s:%d %s" % (os.path.relpath(fr.f_code.co_filename, vlib.REPO), fr.f_lineno, fr.f_code.co_name))
+                                    fr = fr.f_back
+                                observed[key] = " <- ".join(chain)
+                    return orig(self, name, value)
+                return rec
+
+            K.__setattr__ = make(orig, K)
+            self._patched.append((K, had, prev))
+        return self
+
+    def __exit__(self, *exc):
+        for K, had, prev in reversed(self._patched):
+            if had:
+                K.__setattr__ = prev
+            else:
+                try:
+                    del K.__setattr__
+                except AttributeError:
+                    pass
+        self._patched = []
+        return False
+
+
+def state_dump(wn, slots):
+    """value of every run-time slot (the static `written` table) of every object of the model"""
+    by_cls = {}
+    for c, f in slots:
+        by_cls.setdefault(c, []).append(f)
+
+    def get(o, field):
+        cur = o
+        for part in field.split("."):
+            cur = getattr(cur, part)
+        return cur
+
+    out = {}
+    for name, o in list(wn.nodes()) + list(wn.links()):
+        cn = type(o).__name__
+        for f in by_cls.get(cn, []):
+            try:
+                out[(cn, f, name)] = norm(get(o, f))
+            except AttributeError:
+                out[(cn, f, name)] = "<unset>"
+    for f in by_cls.get("WaterNetworkModel", []):
+        try:
+            out[("WaterNetworkModel", f, "")] = norm(get(wn, f))
+        except AttributeError:
+            out[("WaterNetworkModel", f, "")] = "<unset>"
+    for f in by_cls.get("Options", []):
+        try:
+            out[("Options", f, "")] = norm(get(wn.options, f))
+        except AttributeError:
+            out[("Options", f, "")] = "<unset>"
+    for name, c in wn.controls():
+        cn = type(c).__name__
+        for f in by_cls.get(cn, []):
+            if f.startswith("_condition."):
+                vals = []
+
+                def walk(cond):
+                    if cond is None:
+                        return
+                    if hasattr(cond, f.split(".", 1)[1]):
+                        vals.append(norm(getattr(cond, f.split(".", 1)[1])))
+                    for k in ("_condition_1", "_condition_2"):
+                        if hasattr(cond, k):
+                            walk(getattr(cond, k))
+
+                walk(getattr(c, "_condition", None))
+                out[(cn, f, name)] = vals
+            else:
+                try:
+                    out[(cn, f, name)] = norm(get(c, f))
+                except AttributeError:
+                    out[(cn, f, name)] = "<unset>"
+    return out
+
+
+def wn_reset_twin(wntr, spec):
+    w = build_model(wntr, spec, fresh=True)
+    w.reset_initial_values()
+    return w
+
+
+def copy_slots(src, dst, groups):
+    """copy the raw values of the slot groups [(cls, field)] from model src to model dst (same spec)"""
+    gs = set(groups)
+
+    def objs(wn):
+        d = {("WaterNetworkModel", ""): wn}
+        for name, o in list(wn.nodes()) + list(wn.links()):
+            d[(type(o).__name__, name)] = o
+        for name, c in wn.controls():
+            d[(type(c).__name__, name)] = c
+        return d
+
+    so, do = objs(src), objs(dst)
+    for (cls, field) in gs:
+        for (c, name), o in do.items():
+            if c != cls or (c, name) not in so:
+                continue
+            parts = field.split(".")
+            a, b = so[(c, name)], o
+            try:
+                for p_ in parts[:-1]:
+                    a, b = getattr(a, p_), getattr(b, p_)
+                setattr(b, parts[-1], getattr(a, parts[-1]))
+            except AttributeError:
+                pass
+
+
+def dump_diff(a, b):
+    """{(cls, field): [(element, old, new)...]} for slots whose value differs"""
+    out = {}
+    for k in sorted(set(a) | set(b), key=str):
+        if a.get(k, "<absent>") != b.get(k, "<absent>"):
+            out.setdefault((k[0], k[1]), []).append((k[2], a.get(k, "<absent>"), b.get(k, "<absent>")))
+    return out
+
+
+def family(classes):
+    cs = set(classes)
+    if cs and cs <= set(VALVE_CLASSES):
+        return "Valve"
+    if cs and cs <= set(PUMP_CLASSES):
+        return "Pump"
+    if cs and cs <= set(PUMP_CLASSES + VALVE_CLASSES):
+        return "Pump+Valve"
+    return "+".join(sorted(cs))
+
+
+# =================================================================================================== the oracle for one model
+
+# written slots allowed to be absent from resetAssigns / present in toDictReads on the unchanged tree (mirror of the
+# hypotheses of Props/C11.lean; anything NEW in these sets is a broken tie that triggers the failing-input search)
+KNOWN_OVERLAP = {("HeadPump", "_speed_timeseries.base_value"), ("PowerPump", "_speed_timeseries.base_value"),  # known finding (speed control)
+                 ("Rule", "_name")}  # InpFile._write_rules names an unnamed rule after its registry key; io.to_dict emits the key for an empty name
+KNOWN_MISSING = {("HeadPump", "_speed_timeseries.base_value"), ("PowerPump", "_speed_timeseries.base_value"),
+                 ("Reservoir", "_leak_status"),  # never read for reservoirs
+                 ("Control", "_condition._backtrack"), ("Rule", "_condition._backtrack"), ("Control", "_which"), ("Rule", "_which"),
+                 ("Rule", "_name"),
+                 ("HeadPump", "_coeffs_curve_points"), ("HeadPump", "_curve_coeffs"),  # memo of get_head_curve_coefficients keyed on the curve points
+                 ("WaterNetworkModel", "_inpfile")}
+
+
+class Judge:
+    def __init__(self, wntr, tabs, tmpdir, ctx=None):
+        self.wntr, self.tabs, self.tmpdir, self.ctx = wntr, tabs, tmpdir, ctx
+        self.written = set(tabs["writtenByActions"]) | set(tabs["writtenBySim"])
+        self.uncovered = {}  # slot -> where (tie d)
+        self.nruns = 0
+
+    def count(self, k, n=1):
+        if self.ctx is not None:
+            self.ctx.count(k, n)
+
+    # ---------------------------------------------------------------- helpers
+    def _run(self, wn, spec, trace=False):
+        self.nruns += 1
+        if not trace:
+            return run_wntr(self.wntr, wn, spec["net"].get("hw_approx", "default"))
+        with WriteTrace(self.wntr, wn) as tr:
+            out = run_wntr(self.wntr, wn, spec["net"].get("hw_approx", "default"))
+        self._cover(tr, "WNTRSimulator")
+        return out
+
+    def _cover(self, tr, simname):
+        for slot, where in tr.observed.items():
+            self.count("write:%s.%s" % slot)
+            if slot not in self.written:
+                self.uncovered.setdefault(slot, "%s: %s" % (simname, where))
+
+    def _epanet(self, wn, trace=True):
+        prefix = os.path.join(self.tmpdir, "ep")
+        if trace:
+            with WriteTrace(self.wntr, wn) as tr:
+                out = run_epanet(self.wntr, wn, prefix)
+            self._cover(tr, "EpanetSimulator")
+        else:
+            out = run_epanet(self.wntr, wn, prefix)
+        for f in os.listdir(self.tmpdir):
+            try:
+                os.remove(os.path.join(self.tmpdir, f))
+            except OSError:
+                pass
+        return out
+
+    def _used_model(self, spec):
+        """a model that has been run once and reset (carries whatever reset_initial_values leaves behind)"""
+        w = build_model(self.wntr, spec, fresh=True)
+        w.reset_initial_values()
+        self._run(w, spec)
+        w.reset_initial_values()
+        return w
+
+    def _causal(self, make, twin, groups, ref, spec):
+        """slot groups that change the outcome on their own: every OTHER group is set to the twin's (reset-only) value"""
+        out = []
+        for g in groups[:8]:
+            w = make()
+            copy_slots(twin, w, [h for h in groups if h != g])
+            if cmp_outcomes(self._run(w, spec), ref) is not None:
+                out.append(g)
+        return out
+
+    # ---------------------------------------------------------------- the oracles; returns list of (key, what, extra)
+    def judge(self, spec, light=False, third=False):
+        """light: only what the shrinker needs (to_dict + rerun oracles)"""
+        wntr = self.wntr
+        out = []
+        wn = build_model(wntr, spec, fresh=True)
+        F = state_dump(wn, self.written)
+        wn.reset_initial_values()
+        R0 = state_dump(wn, self.written)
+        fresh_diff = dump_diff(F, R0)
+        d0 = to_dict_norm(wn)
+        # ---- a. WNTRSimulator leaves to_dict alone
+        r1 = self._run(wn, spec, trace=not light)
+        d1 = to_dict_norm(wn)
+        out += self._dict_failures(d0, d1, "WNTRSimulator", spec)
+        # ---- b. run / reset / run
+        wn.reset_initial_values()
+        R1 = state_dump(wn, self.written)
+        d1r = to_dict_norm(wn)
+        if not out:
+            out += self._dict_failures(d0, d1r, "WNTRSimulator+reset", spec)
+        r2 = self._run(wn, spec)
+        diff12 = cmp_outcomes(r1, r2)
+        self.count("outcome:" + r1[0] + (":" + r1[1] if r1[0] == "raised" else ""))
+        self.count("rerun:" + ("same" if diff12 is None else "differs"))
+        left = dump_diff(R0, R1)
+        if diff12 is not None:
+            out.append(("rerun-differs-after-reset", "run / reset_initial_values / run gives different results: " + diff12,
+                        {"reset_leaves": {"%s.%s" % k: v[:3] for k, v in left.items()}}))
+        dict_changed = [k for k, _, _ in out if k.startswith("to_dict-changed")]
+        reads = set(self.tabs["toDictReads"])
+        causal_left = []
+        if diff12 is not None and left and not light:
+            causal_left = self._causal(lambda: self._used_model(spec), wn_reset_twin(wntr, spec), sorted(left), r1, spec)
+        for (c, f), items in left.items():
+            self.count("reset-leaves:%s.%s" % (c, f))
+            why = None
+            if (c, f) in causal_left:
+                why = "the rerun differs because of it"
+            elif dict_changed and (c, f) in reads and any((":%s." % family([c])) in k for k in dict_changed):
+                why = "to_dict reads it and differs"
+            if why:
+                out.append(("reset-does-not-restore:%s.%s" % (family([c]), f),
+                            "after run + reset_initial_values the slot %s.%s differs from its value in a model that was only reset "
+                            "(%s: %r -> %r); %s" % (c, f, items[0][0], items[0][1], items[0][2], why), {}))
+        if third or (not light and len(spec.get("controls", [])) % 3 == 0):
+            wn.reset_initial_values()
+            r3 = self._run(wn, spec)
+            d3 = cmp_outcomes(r2, r3)
+            self.count("third-cycle:" + ("same" if d3 is None else "differs"))
+            if d3 is not None and diff12 is None:
+                out.append(("rerun-differs-after-reset", "third run / reset / run cycle gives different results: " + d3, {"cycle": 3}))
+        # ---- the API-built model, simulated as built (no reset first), against the same model after reset
+        if fresh_diff:
+            wf = build_model(wntr, spec, fresh=True)
+            rf = self._run(wf, spec)
+            dfr = cmp_outcomes(rf, r1)
+            for (c, f), items in fresh_diff.items():
+                self.count("fresh-differs-from-reset:%s.%s" % (c, f))
+            if dfr is not None:
+                # which of the differing slots is responsible: make every OTHER differing slot equal to the reset model's
+                causal = self._causal(lambda: build_model(wntr, spec, fresh=True), wn_reset_twin(wntr, spec), sorted(fresh_diff), r1, spec)
+                causal = causal or sorted(fresh_diff)
+                fam = family([c for (c, f) in causal])
+                flds = sorted(set(f for (c, f) in causal))
+                out.append(("rerun-differs-after-reset:fresh-model:%s.%s" % (fam, "+".join(flds)),
+                            "build / run / reset_initial_values / run: the first run of the API-built model differs from the run after reset "
+                            "(%s); responsible: %s is %r in the model as built and %r after reset_initial_values"
+                            % (dfr, "%s.%s" % causal[0], fresh_diff[causal[0]][0][1], fresh_diff[causal[0]][0][2]),
+                            {"fresh_vs_reset": {"%s.%s" % k: v[:3] for k, v in fresh_diff.items()}, "responsible": ["%s.%s" % k for k in causal]}))
+        if light:
+            return out
+        # ---- c. equal models give equal results
+        wn.reset_initial_values()
+        wc = copy.deepcopy(wn)
+        rc = self._run(wc, spec)
+        dc = cmp_outcomes(r1, rc)
+        self.count("deepcopy:" + ("same" if dc is None else "differs"))
+        if dc is not None:
+            out.append(("copy-differs:deepcopy", "a deepcopy of the (reset) model simulates differently: " + dc, {}))
+        try:
+            dj = json.loads(json.dumps(wn.to_dict()))
+            wj = wntr.network.from_dict(dj)
+            same_def = not dict_diff(d0, to_dict_norm(wj))
+        except Exception as e:
+            wj, same_def = None, False
+            self.count("json-copy:raises-" + type(e).__name__)
+        if wj is not None and not same_def:
+            self.count("json-copy:not-an-equal-model(C13)")
+        if wj is not None and same_def:
+            rj = self._run(wj, spec)  # as reloaded, no reset
+            dj_ = cmp_outcomes(r1, rj)
+            self.count("json-copy:" + ("same" if dj_ is None else "differs"))
+            if dj_ is not None:
+                wj.reset_initial_values()
+                rj2 = self._run(wj, spec)
+                if cmp_outcomes(r1, rj2) is None:
+                    mk = lambda: wntr.network.from_dict(json.loads(json.dumps(wn.to_dict())))
+                    Fj = dump_diff(state_dump(mk(), self.written), R0)
+                    groups = sorted(g for g in Fj if g[0] in ELEMENT_CLASSES)
+                    causal = self._causal(mk, wn_reset_twin(wntr, spec), groups, r1, spec) or groups
+                    fam = family([c for (c, f) in causal])
+                    flds = sorted(set(f for (c, f) in causal))
+                    out.append(("rerun-differs-after-reset:fresh-model:%s.%s" % (fam, "+".join(flds)),
+                                "a model reloaded through to_dict / JSON / from_dict has the same dictionary but simulates differently until "
+                                "reset_initial_values is called: %s; responsible: %s" % (dj_, ["%s.%s" % k for k in causal]),
+                                {"reloaded_vs_reset": {"%s.%s" % k: v[:3] for k, v in Fj.items()}}))
+                else:
+                    out.append(("copy-differs:json-roundtrip", "a model reloaded through to_dict / JSON / from_dict (equal dictionary) simulates "
+                                "differently: " + dj_, {}))
+        # ---- a'. EpanetSimulator leaves to_dict (and the run-time state) alone; two runs agree
+        wn.reset_initial_values()
+        Rb = state_dump(wn, self.written)
+        db = to_dict_norm(wn)
+        e1 = self._epanet(wn)
+        de = to_dict_norm(wn)
+        out += self._dict_failures(db, de, "EpanetSimulator", spec)
+        self.count("epanet:" + e1[0] + (":" + e1[1] if e1[0] == "raised" else ""))
+        Ra = state_dump(wn, self.written)
+        for (c, f), items in dump_diff(Rb, Ra).items():
+            self.count("epanet-run-changes:%s.%s" % (c, f))
+        if e1[0] == "ok":
+            e2 = self._epanet(wn, trace=False)
+            dee = cmp_outcomes(e1, e2)
+            self.count("epanet-rerun:" + ("same" if dee is None else "differs"))
+            if dee is not None:
+                out.append(("epanet-rerun-differs", "two consecutive EpanetSimulator runs of the same model differ: " + dee, {}))
+            # WNTRSimulator after an EPANET run (no reset in between) still reproduces
+            r4 = self._run(wn, spec)
+            d4 = cmp_outcomes(r1, r4)
+            self.count("wntr-after-epanet:" + ("same" if d4 is None else "differs"))
+            if d4 is not None:
+                out.append(("rerun-differs-after-EpanetSimulator", "a WNTRSimulator run after an EpanetSimulator run of the reset model differs: " + d4, {}))
+        return out
+
+    def _dict_failures(self, d0, d1, simname, spec):
+        out = []
+        seen = set()
+        for (path, old, new) in dict_diff(d0, d1):
+            cls, key = classify_dict_diff(d0, path)
+            k = "to_dict-changed-after-%s:%s.%s" % (simname.split("+")[0], family([cls]), key)
+            if k in seen:
+                continue
+            seen.add(k)
+            out.append((k, "wn.to_dict() differs after %s at %s: %r -> %r" % (simname, path, old, new), {"where": path, "observed": new, "expected": old}))
+        return out
+
+
+def shrink(judge, spec, key):
+    """drop controls / leaks / elements' optional features one at a time while the failure with `key` persists"""
+    def fails(sp):
+        try:
+            return any(k == key for k, _, _ in judge.judge(sp, light=not key.startswith(("copy-", "epanet", "to_dict-changed-after-Epanet", "rerun-differs-after-Epanet"))))
+        except Exception:
+            return False
+
+    cur = copy.deepcopy(spec)
+    changed = True
+    budget = 60
+    while changed and budget > 0:
+        changed = False
+        for i in range(len(cur["controls"]) - 1, -1, -1):
+            t = copy.deepcopy(cur)
+            del t["controls"][i]
+            budget -= 1
+            if fails(t):
+                cur, changed = t, True
+        for nd in cur["net"]["nodes"]:
+            if nd.get("leak"):
+                t = copy.deepcopy(cur)
+                for n2 in t["net"]["nodes"]:
+                    if n2["name"] == nd["name"]:
+                        del n2["leak"]
+                budget -= 1
+                if fails(t):
+                    cur, changed = t, True
+                    break
+        for c in cur["controls"]:
+            if c["kind"] == "rule" and (len(c["then"]) > 1 or c["else"]):
+                t = copy.deepcopy(cur)
+                for c2 in t["controls"]:
+                    if c2 is not None and c2.get("name") == c.get("name") and c2["kind"] == "rule":
+                        if len(c2["then"]) > 1:
+                            c2["then"] = c2["then"][:1]
+                        else:
+                            c2["else"] = []
+                        break
+                budget -= 1
+                if fails(t):
+                    cur, changed = t, True
+                    break
+    return cur
+
+
+def feature_key(spec):
+    """class-level name of what is left after shrinking"""
+    acts = set()
+    kinds = set()
+    for c in spec.get("controls", []):
+        kinds.add(c["kind"])
+        for a in ([c["action"]] if "action" in c else c["then"] + c["else"]):
+            acts.add(a["attr"])
+    leaks = any(n.get("leak") for n in spec["net"]["nodes"])
+    parts = []
+    if "base_speed" in acts:
+        parts.append("base_speed-control")
+    else:
+        if acts:
+            parts.append("+".join(sorted(acts)) + "-control")
+        if "rule" in kinds:
+            parts.append("rule")
+    if leaks:
+        parts.append("leak")
+    return "+".join(parts) if parts else "no-controls"
+
+
+# =================================================================================================== the check
+
+
+class C11(Check):
+    pid = "C11"
+    level = "proof"
+    prop_modules = ["WntrModel.Props.C11"]
+    manifest = dict(
+        category="proof",
+        text="Frame argument in Lean (Model/Frame.lean, Props/C11.lean) over slot tables regenerated from the current source on every "
+        "run (Gen/FrameC11.lean: what control actions and the simulator code paths can assign, what to_dict reads, what "
+        "reset_initial_values re-assigns): a run is any sequence of writes inside `written`, so to_dict is invariant when "
+        "written and toDictReads are disjoint, and run/reset/run reproduces when every written slot is re-assigned or run-initialised. "
+        "The real simulators are run on generated models (controls on status / setting / base_speed, rules, leaks, PDD): to_dict deep "
+        "equality before/after WNTRSimulator and EpanetSimulator, exact reproduction of every results table over run/reset/run cycles, "
+        "deepcopy and JSON-reloaded models, and every attribute write observed at run time must be inside the generated `written` table.",
+        design_ref="DESIGN.md §5 C11",
+        note="modelled, not verified: the numerical solver (equal stores give equal results is an assumption of the frame theorem, "
+        "exercised by the exact rerun comparison); registries / OrderedSets mutated in place (observer lists) are not slots; the tables are "
+        "class-level over-approximations (hasattr reflection on a zoo model). Known: a base_speed control rewrites the pump definition.",
+        technique="Lean 4 frame theorems over translator-regenerated read/write tables + run-time write trace + differential reruns on the implementation",
+    )
+    rule = ("obligations: theorems of Props/C11.lean over Gen/FrameC11.lean. correspondence cases: one per generated model (directed "
+            "scenarios + seeded random networks with controls); per model: to_dict before/after both simulators, run/reset/run (exact), third "
+            "cycle, deepcopy, JSON reload, write trace within `written`, fresh/reset/run+reset state dumps. distinct = distinct (network "
+            "signature, feature set); non-trivial = the model has at least one control, rule or leak")
+    trusted_base = ["translator harness/props/c11.py (ast of the simulator code paths / controls / reset_initial_values, reflection of to_dict on a zoo model)",
+                    "recording __setattr__ wrappers see attribute assignments only (in-place container mutation is covered by the to_dict / rerun oracles, not by the trace)",
+                    "EPANET 2.2 toolkit binary; scipy sparse solver (determinism is observed, not modelled)"]
+    assumptions = ["a simulation is a function of the store: equal stores (all slots) give equal results",
+                   "class-level tables: a slot stands for that field on every object of the concrete class"]
+
+    def translate(self, ctx):
+        tabs = build_tables()
+        self.tabs = tabs
+        w = tabs["writtenByActions"] + tabs["writtenBySim"]
+        ctx.cov["tables"] = {k: len(tabs[k]) for k in ("writtenByActions", "writtenBySim", "toDictReads", "resetAssigns", "runInitialises")}
+        ctx.cov["overlap_written_toDictReads"] = ["%s.%s" % s for s in overlap(w, tabs["toDictReads"])]
+        ctx.cov["missing_written_resetAssigns"] = ["%s.%s" % s for s in missing(w, tabs["resetAssigns"])]
+        ctx.cov["dropped_assignments"] = tabs["dropped"][:40]
+        vlib.write_if_changed(os.path.join(vlib.GEN, "FrameC11.lean"), gen_lean(tabs))
+
+    # ---------------------------------------------------------------- static guard (what Props/C11.lean decides, mirrored)
+    def _static_broken(self, tabs):
+        w = tabs["writtenByActions"] + tabs["writtenBySim"]
+        ri = set(tabs["runInitialises"])
+        broken = []
+        ov = [s for s in overlap(w, tabs["toDictReads"]) if s not in KNOWN_OVERLAP]
+        if ov:
+            where = {("%s.%s" % s): tabs["where"]["written"].get("%s.%s" % s, [])[:3] for s in ov}
+            broken.append(Broken("proof", "Gen.written ∩ Gen.toDictReads grew",
+                                 "slots a run can assign that to_dict reads: %s" % json.dumps(where, sort_keys=True)))
+        ms = [s for s in missing(w, tabs["resetAssigns"]) if s not in KNOWN_MISSING and s not in ri]
+        if ms:
+            where = {("%s.%s" % s): tabs["where"]["written"].get("%s.%s" % s, [])[:3] for s in ms}
+            broken.append(Broken("proof", "Gen.written \\ Gen.resetAssigns grew",
+                                 "slots a run can assign that reset_initial_values does not re-assign: %s" % json.dumps(where, sort_keys=True)))
+        return broken
+
+    def _cases(self, ctx, wide=False):
+        for fn, item in vlib.corpus_items("C11"):
+            yield ("corpus:" + fn, item["spec"])
+        for nm, sp in scenario_specs(ctx.rng):
+            yield ("scenario:" + nm, sp)
+        n = (40 if ctx.quick else 450) if not wide else (120 if ctx.quick else 600)
+        for i in range(n):
+            yield ("gen%d" % i, gen_spec(ctx.rng, quick=ctx.quick, wide=wide or (i % 7 == 6)))
+
+    def _evaluate(self, ctx, wide=False):
+        wntr = vlib.import_wntr()
+        if not hasattr(self, "tabs"):
+            self.tabs = build_tables()
+        tmpdir = os.path.join(vlib.BUILD, "c11-tmp-%d" % os.getpid())
+        os.makedirs(tmpdir, exist_ok=True)
+        J = Judge(wntr, self.tabs, tmpdir, ctx)
+        failures = []
+        seen_keys = {}
+        t0 = time.time()
+        limit = (75 if ctx.quick else 780)
+        try:
+            for label, sp in self._cases(ctx, wide):
+                if time.time() - t0 > limit:
+                    ctx.count("stopped-at-time-limit")
+                    break
+                feats = spec_features(sp)
+                for f in feats:
+                    ctx.count("feat:" + f)
+                nontriv = any(f.startswith(("ctl:", "leak:")) for f in feats)
+                ctx.case((G.spec_signature(sp["net"]), tuple(feats)), nontriv)
+                try:
+                    res = J.judge(sp)
+                except vlib.Infra:
+                    raise
+                except Exception as e:
+                    raise vlib.Infra("C11 oracle crashed on %s: %s\n%s" % (label, e, traceback.format_exc()[-1500:]))
+                if len(ctx.samples) < 5:
+                    ctx.sample({"case": label, "features": feats, "nodes": len(sp["net"]["nodes"]), "links": len(sp["net"]["links"]),
+                                "controls": len(sp.get("controls", [])), "failures": [k for k, _, _ in res]})
+                for key, what, extra in res:
+                    full = key
+                    small = sp
+                    if key == "rerun-differs-after-reset" or key.startswith("reset-does-not-restore"):
+                        if key not in seen_keys or True:
+                            small = shrink(J, sp, key) if (key, feature_key(sp)) not in seen_keys else sp
+                        full = key + ":" + feature_key(small) if key == "rerun-differs-after-reset" else key
+                    elif key.startswith("to_dict-changed") and full not in seen_keys:
+                        small = shrink(J, sp, key)
+                    seen_keys[(key, feature_key(sp))] = True
+                    if full in seen_keys:
+                        ctx.count("failure-repeat:" + full)
+                        continue
+                    seen_keys[full] = True
+                    failures.append(Failure(full, what, {"case": label, "spec": small, "oracle": key, "detail": extra,
+                                                         "features": spec_features(small)}))
+        finally:
+            try:
+                for f in os.listdir(tmpdir):
+                    os.remove(os.path.join(tmpdir, f))
+                os.rmdir(tmpdir)
+            except OSError:
+                pass
+        ctx.cov["simulator_runs"] = ctx.cov.get("simulator_runs", 0) + J.nruns
+        broken = []
+        for slot, where in sorted(J.uncovered.items()):
+            broken.append(Broken("correspondence", "C11 write trace not covered by Gen.written",
+                                 "run-time assignment to slot %s.%s observed at %s; the static tables do not list it" % (slot[0], slot[1], where)))
+        return failures, broken
+
+    def correspondence(self, ctx):
+        if not hasattr(self, "tabs"):
+            self.tabs = build_tables()
+        failures, broken = self._evaluate(ctx)
+        broken = self._static_broken(self.tabs) + broken
+        return failures, broken
+
+    def search(self, ctx, broken):
+        fs, _ = self._evaluate(ctx, wide=True)
+        return fs
+
+    def replay(self, ctx, path):
+        wntr = vlib.import_wntr()
+        r = json.load(open(path if os.path.isabs(path) else os.path.join(vlib.VERIF, path)))
+        rp = r.get("replay", r)
+        print(json.dumps({k: v for k, v in r.items() if k != "replay"}, indent=1)[:1500])
+        if "spec" not in rp:
+            print("replay: no model in the replay file (broken tie without a failing input)")
+            return 0
+        tabs = build_tables()
+        tmpdir = os.path.join(vlib.BUILD, "c11-tmp-%d" % os.getpid())
+        os.makedirs(tmpdir, exist_ok=True)
+        try:
+            res = Judge(wntr, tabs, tmpdir).judge(rp["spec"], third=True)
+        finally:
+            try:
+                for f in os.listdir(tmpdir):
+                    os.remove(os.path.join(tmpdir, f))
+                os.rmdir(tmpdir)
+            except OSError:
+                pass
+        want = rp.get("oracle") or r.get("key")
+        hit = [(k, w) for k, w, _ in res if k == want or k == r.get("key")]
+        for k, w, _ in res:
+            print("  oracle: %s -- %s" % (k, w[:200]))
+        print("replay: %s" % ("REPRODUCED " + hit[0][1][:300] if hit else "not reproduced on the current tree"))
+        return 1 if hit else 0
+
+
 if __name__ == "__main__":
     if len(sys.argv) > 1 and sys.argv[1] == "tables":
         tb = build_tables()
@@ -1053,3 +2211,5 @@ if __name__ == "__main__":
         print("sizes", {k: len(tb[k]) for k in ("writtenByActions", "writtenBySim", "toDictReads", "resetAssigns", "runInitialises")})
         print("overlap", overlap(w, tb["toDictReads"]))
         print("missing", missing(w, tb["resetAssigns"]))
+    else:
+        vlib.run_check(C11)
